@@ -180,6 +180,12 @@ func (v *AllScopeVariables) Get(s context.Scope, name string) (value.Value, erro
 			return v, nil
 		}
 		return &value.String{Value: v.ctx.OriginalHost}, nil
+	// Undocumented; falco has no Varnish build to report, the value is empty unless overridden
+	case FASTLY_INFO_VERSION:
+		if v := lookupOverride(v.ctx, name); v != nil {
+			return v, nil
+		}
+		return &value.String{Value: ""}, nil
 	case FASTLY_INFO_H2_FINGERPRINT:
 		if v := lookupOverride(v.ctx, name); v != nil {
 			return v, nil
